@@ -390,7 +390,17 @@ func c17Runs(rt *rapid.T) *c17Case {
 	}
 	pad(rapid.IntRange(0, maxPad).Draw(rt, "padHead"), "head")
 	run(rapid.IntRange(0, maxRun).Draw(rt, "runBefore"), "before")
-	fmt.Fprintf(&b, "// keep is untouched. %s\nfunc keep(x bool) {\n\tif x {\n\t\t// deep inside keep %s\n\t\ty() // %s\n\t}\n\t// %s\n}\n\n", tok(), tok(), tok(), tok())
+	tight := rapid.IntRange(0, 2).Draw(rt, "tightKeep") == 0
+	if tight {
+		// the rewritten declaration stands directly above keep, and keep has
+		// a comment behind its opening brace
+		s := b.String()
+		b.Reset()
+		b.WriteString(strings.TrimSuffix(s, "\n"))
+		fmt.Fprintf(&b, "var tightbefore = compute(99) // %s\nfunc keep(x bool) { // %s\n\n\tif x {\n\t\t// deep inside keep %s\n\t\ty() // %s\n\t}\n\t// %s\n}\n\n", tok(), tok(), tok(), tok(), tok())
+	} else {
+		fmt.Fprintf(&b, "// keep is untouched. %s\nfunc keep(x bool) {\n\tif x {\n\t\t// deep inside keep %s\n\t\ty() // %s\n\t}\n\t// %s\n}\n\n", tok(), tok(), tok(), tok())
+	}
 	if rapid.Bool().Draw(rt, "second") {
 		fmt.Fprintf(&b, "type keepT struct {\n\tA int // %s\n\t// %s\n\tB string\n}\n\n", tok(), tok())
 	}
@@ -402,6 +412,11 @@ func c17Runs(rt *rapid.T) *c17Case {
 		"@@\nvar n identifier\nvar v expression\n@@\n-var n = v\n",
 		"@@\nvar n identifier\nvar v expression\n@@\n-var n = v\n+type n struct{ V int }\n",
 	}).Draw(rt, "runPatch")
+	if rapid.IntRange(0, 3).Draw(rt, "longStep") == 0 {
+		// two changes on the same declaration: the first makes it much longer
+		patch = "@@\nvar n identifier\nvar v expression\n@@\n-var n = v\n+var n = aVeryLongIdentifierNameThatGoesOnAndOnAndOnAndOnAndOn\n\n" +
+			"@@\nvar n identifier\n@@\n-var n = aVeryLongIdentifierNameThatGoesOnAndOnAndOnAndOnAndOn\n+func n() any { return 1 }\n"
+	}
 	if rapid.Bool().Draw(rt, "alsoConst") {
 		patch += "\n@@\nvar n identifier\nvar v expression\n@@\n-const n = v\n+func n() any { return v }\n"
 	}
